@@ -188,7 +188,7 @@ def r2_slice_clamps(ctx):
         short = (c.callee or "").split("::")[-1]
         if short == "skip" and "start" in sh(ne(f.expr(c.args[1], 4))):
             ctx.ok("slice|skip-start", f.where(c.block), "skip(start)")
-        elif short == "take" and re.search(r"Sub\(.*end.*start|Sub\(end,start\)", sh(ne(f.expr(c.args[1], 6)))):
+        elif short == "take" and (re.search(r"Sub\(.*end.*start|Sub\(end,start\)", sh(ne(f.expr(c.args[1], 6)))) or re.search(r"Sub\(.*end.*start|Sub\(end,start\)", a)):
             ctx.ok("slice|take-width", f.where(c.block), "take(end - start)")
         else:
             ctx.bad("slice|%s-arg" % short, f.where(c.block), "%s(%s)" % (short, sh(ne(f.expr(c.args[1], 6)))[:40]))
@@ -454,18 +454,44 @@ def r7_thin_wrappers_apply_their_primitive_to_everything(ctx):
         bodies = [fn] + list(ctx.lib.closures_of(fn.id))
         n += 1
         uses = False
+
+        def is_prim(path):
+            # the same method is spelled `std::char::methods::<impl char>::to_uppercase` as a function item and
+            # `std::char::methods::to_uppercase` as a resolved callee
+            q = str(path).replace("<impl char>::", "").replace("<impl str>::", "")
+            pr = prim.replace("<impl char>::", "char::methods::").replace("<impl str>::", "")
+            return q.endswith(prim) or q.endswith(pr) or (pr.startswith("char::methods::") and q.endswith(pr))
         for b in bodies:
             for c in b.calls():
-                if (c.callee or "").endswith(prim):
+                if is_prim(c.callee or ""):
                     uses = True
                 for a in c.args:
-                    if isinstance(a, dict) and "const" in a and str(a["const"]).endswith(prim):
+                    if isinstance(a, dict) and "const" in a and is_prim(a["const"]):
                         uses = True
             for blk in (b.blocks[i] for i in b.live):
                 for st in blk["s"]:
                     if prim in str(st["rv"]):
                         uses = True
-        narrowing = sorted({(c.callee or "").split("::")[-1] for b in bodies for c in b.calls() if (c.callee or "").split("::")[-1] in NARROWING and not (c.callee or "").startswith(("arena::", "builtins::"))})
+        from .c03 import natural_loop
+
+        def drives_a_loop(b, c):
+            """`next()` whose Option decides whether a loop containing the call goes round again: the `for` loop's own driver."""
+            if (c.callee or "").split("::")[-1] != "next" or c.target is None:
+                return False
+            loops = [natural_loop(b, H) for H in sorted(b.live)]
+            loops = [l for l in loops if l and c.block in l]
+            if not loops:
+                return False
+            blk = c.target
+            for _ in range(3):
+                t = b.blocks[blk]["t"]
+                if t["k"] == "switch":
+                    return any(any(j not in l for _lab, j in b.succ[blk]) for l in loops)
+                if t["k"] != "goto":
+                    return False
+                blk = t["t"]
+            return False
+        narrowing = sorted({(c.callee or "").split("::")[-1] for b in bodies for c in b.calls() if (c.callee or "").split("::")[-1] in NARROWING and not (c.callee or "").startswith(("arena::", "builtins::")) and not drives_a_loop(b, c)})
         own = []
         for b in bodies:
             for S in sorted(b.live):
